@@ -57,6 +57,12 @@ def run(ck, tier):
         finally:
             _prov.PROGRAM = saved
         _census(ck, p)
+    ck.rule("R-C01-units", "a span built from a byte length can end past the text, and Span::get_content then panics: no byte length / byte position of a str or String reaches a span or an index into the char source unconverted (rule instances of R-C04-units)")
+    try:
+        from . import c04, c05
+        c04._byte_lengths(c05._Sub(ck, "R-C01-units", ""), p)
+    except Exception as e:
+        ck.refuted("R-C01-units", "internal:%s" % type(e).__name__, "", "rule could not run: %s" % e)
     for sub in (_consumers, _lexer, _loops, _spans, _precond):
         try:
             sub(ck, p)
